@@ -63,6 +63,9 @@ func ifaceKey(t types.Type) string {
 
 // callFunction handles a call to a known function.
 func (f *Frame) callFunction(callee *ssa.Function, args []Val, free map[*ssa.FreeVar]Val, sig *types.Signature, st State, ins ssa.CallInstruction) (State, Val) {
+	if FuncKey(callee) == "sync.(*Once).Do" && len(args) == 2 {
+		return f.onceDo(args[0], args[1], callee, st, ins)
+	}
 	fc := f.w.ContractOf(callee)
 	if fc != nil && !fc.Inline {
 		return f.applyContract(fc, callee, fnDisplay(callee), args, sig, st, ins)
@@ -443,6 +446,13 @@ func (f *Frame) applyContractFn(fc *FuncContract, callee *ssa.Function, name str
 	if clauses.modAll {
 		heap = f.havocAll(st.Heap)
 	} else {
+		// the callee may allocate: bump the watermark FIRST, so that the type facts
+		// of havoc'd locations (references <= alloc) refer to the post-call watermark
+		if !clauses.pure {
+			na := vc.Fresh("alloc", SInt)
+			vc.Assume(Ge(na, st.Heap.Comp(allocComp, SInt)))
+			heap = heap.Set(allocComp, na)
+		}
 		for _, m := range clauses.modifies {
 			pre.Scope = m.scope
 			var err error
@@ -450,11 +460,6 @@ func (f *Frame) applyContractFn(fc *FuncContract, callee *ssa.Function, name str
 			if err != nil {
 				f.fail("modifies clause of %s: %v", name, err)
 			}
-		}
-		if !clauses.pure {
-			na := vc.Fresh("alloc", SInt)
-			vc.Assume(Ge(na, st.Heap.Comp(allocComp, SInt)))
-			heap = heap.Set(allocComp, na)
 		}
 	}
 	var panicked Term
@@ -483,6 +488,16 @@ func (f *Frame) applyContractFn(fc *FuncContract, callee *ssa.Function, name str
 			t = Implies(Not(panicked), t)
 		}
 		vc.Assume(Implies(st.PC, t))
+	}
+	for _, e := range clauses.defines {
+		post.Scope = e.scope
+		t, err := post.EvalBool(e.c)
+		if err != nil {
+			f.fail("defines clause of %s: %v", name, err)
+			continue
+		}
+		vc.Trusted["definitional clause of "+name+": "+e.c.Src] = true
+		vc.Assume(Implies(And(st.PC, Not(panicked)), t))
 	}
 	if panicked.S != "false" {
 		f.exit(Exit{Panic: true, PC: vc.Define("pc", And(st.PC, panicked)), Heap: heap, PV: pv})
@@ -580,6 +595,7 @@ type scopedClause struct {
 }
 
 type effContract struct {
+	defines                     []scopedClause
 	requires, ensures, modifies []scopedClause
 	modAll, pure, noPanic       bool
 }
@@ -597,6 +613,9 @@ func (w *World) effectiveContract(fc *FuncContract) *effContract {
 		}
 		for _, m := range c.Modifies {
 			ec.modifies = append(ec.modifies, scopedClause{m, c.ScopePkg})
+		}
+		for _, d := range c.Defines {
+			ec.defines = append(ec.defines, scopedClause{d, c.ScopePkg})
 		}
 		if c.ModAll {
 			ec.modAll = true
@@ -1066,4 +1085,45 @@ func (f *Frame) rangeNext(ins *ssa.Next, st State) (Val, State) {
 		v.Tup = append(v.Tup, Val{T: c})
 	}
 	return v, st
+}
+
+// onceDo models sync.Once.Do sequentially: the function runs iff the (ghost)
+// done flag is clear, and the flag is set afterwards (also when f panics).
+func (f *Frame) onceDo(once, fn Val, callee *ssa.Function, st State, ins ssa.CallInstruction) (State, Val) {
+	vc := f.vc
+	vc.Trusted["sync.Once is correct: Do(f) runs f exactly when no earlier Do has run (sequential model, ghost field done)"] = true
+	ot, err := f.w.ResolveType("sync.Once", "")
+	if err != nil {
+		f.fail("sync.Once: %v", err)
+		return st, Val{T: IntLit(0)}
+	}
+	so := f.w.Sorts.SortOf(ot)
+	info := f.w.Sorts.Struct(so)
+	if _, ok := info.Ghost["fired"]; !ok {
+		f.fail("ghost field sync.Once.fired is not declared")
+		return st, Val{T: IntLit(0)}
+	}
+	comp := fieldComp(so, "fired")
+	cs := ArraySort(SInt, SBool)
+	f.safety("nil", st, Ne(once.T, IntLit(0)), "nil *sync.Once at "+f.pos(ins))
+	done := vc.Define("once.done", Sel(st.Heap.Comp(comp, cs), once.T))
+	// path B: not yet done → run fn, then set done
+	stB := State{PC: vc.Define("pc", And(st.PC, Not(done))), Heap: st.Heap}
+	// the flag is set before f returns (a panicking f still counts as done)
+	stB.Heap = stB.Heap.Set(comp, vc.Define("h."+comp, Store(stB.Heap.Comp(comp, cs), once.T, True)))
+	var after State
+	if cl, ok := f.closures[fn.T.S]; ok {
+		sig := cl.fn.Signature
+		after, _ = f.callFunction(cl.fn, nil, cl.bindings, sig, stB, ins)
+	} else {
+		sig := types.NewSignatureType(nil, nil, nil, nil, nil, false)
+		after, _ = f.callbackCall(fn.T, nil, sig, stB, ins)
+	}
+	stA := State{PC: vc.Define("pc", And(st.PC, done)), Heap: st.Heap}
+	if after.PC.S == "false" {
+		return stA, Val{T: IntLit(0)}
+	}
+	pcs := []Term{stA.PC, vc.Define("pc", after.PC)}
+	heap := f.mergeHeaps(pcs, []*Heap{stA.Heap, after.Heap})
+	return State{PC: vc.Define("pc", Or(pcs...)), Heap: heap}, Val{T: IntLit(0)}
 }
